@@ -239,7 +239,13 @@ def run_partition(case: dict, r: Any, res: UnitResult, seed: int, idx: int) -> N
     msgs, _ = make_input(r, case["tl"], case["kind"] == "hot")
     src = lab.hot("s", msgs) if case["kind"] == "hot" else lab.cold("s", msgs)
     pred = R.PREDICATES[P["pred"]]
-    outs = src.pipe(ops.partition(pred))
+    indexed = idx % 3 == 0
+    if indexed:
+        # partition_indexed: the predicate also sees the position; every third position flips the answer
+        outs = src.pipe(ops.partition_indexed(lambda x, i: bool(pred(x)) != (i % 3 == 0)))
+        res.count("partition_indexed_cases")
+    else:
+        outs = src.pipe(ops.partition(pred))
     tops = [lab.observer("true"), lab.observer("false")]
 
     def sub() -> None:
@@ -259,8 +265,9 @@ def run_partition(case: dict, r: Any, res: UnitResult, seed: int, idx: int) -> N
         owners, ps = deliveries(tr, top)
         probs.extend(ps)
         got.append(owners)
+    pos = {e.idx: n for n, e in enumerate(elems)}
     for side, want_flag in ((0, True), (1, False)):
-        want = [e.idx for e in elems if bool(pred(e.v)) == want_flag]
+        want = [e.idx for e in elems if (bool(pred(e.v)) != (pos[e.idx] % 3 == 0) if indexed else bool(pred(e.v))) == want_flag]
         if got[side] != want:
             both = sorted(set(got[0]) & set(got[1]))
             none = [e.idx for e in elems if e.idx not in got[0] and e.idx not in got[1]]
